@@ -7,7 +7,7 @@ import vlib
 
 PROOF_MODULES = []   # the C32 .vo files are compiled directly with coqc (see the final report for the order)
 OBLIGATIONS = [
-    "C32/P_division.v", "C32/P_division_unique.v", "C32/P_mp_fdiv.v", "C32/P_gcd_lcm.v", "C32/P_gcd_ext.v",
+    "C32/P_division.v", "C32/P_division_by_zero.v", "C32/P_division_unique.v", "C32/P_mp_fdiv.v", "C32/P_gcd_lcm.v", "C32/P_gcd_ext.v",
     "C32/P_mod_inverse.v", "C32/P_crt.v", "C32/P_crt_reduced_refuted.v", "C32/P_mp_powm.v", "C32/P_powermod.v",
     "C32/P_factorial.v", "C32/P_binomial.v", "C32/P_fibonacci_lucas.v",
     "C32/P_is_prime.v", "C32/P_factorisation.v", "C32/P_factor_trial_division.v", "C32/P_totient.v", "C32/P_mobius.v",
@@ -32,7 +32,7 @@ def canon(s):
     """implementation / model line without the oracle part; the three ways a division by zero or a
     std::runtime_error shows up (SIGFPE in GMP, std::overflow_error / runtime_error in boost) are one class"""
     s = s.split("\t#ORACLE:")[0]
-    if s in ("CRASH:8", "EXN:7", "DIVZERO"):
+    if s in ("CRASH:8", "EXN:7", "FPE"):
         return "ERR"
     return s
 
